@@ -552,6 +552,94 @@ namespace sim
       return true;
     }
 
+    bool payload_to_values(const std::string &payload, Array &a, std::string &error)
+    {
+      if (a.type == "Float64")
+        {
+          a.v.resize(payload.size() / 8);
+          if (!a.v.empty())
+            std::memcpy(a.v.data(), payload.data(), a.v.size() * 8);
+        }
+      else if (a.type == "Int64")
+        {
+          std::vector<int64_t> t(payload.size() / 8);
+          if (!t.empty())
+            std::memcpy(t.data(), payload.data(), t.size() * 8);
+          a.v.assign(t.begin(), t.end());
+        }
+      else if (a.type == "Int8")
+        {
+          for (char c : payload)
+            a.v.push_back(static_cast<double>(static_cast<signed char>(c)));
+        }
+      else
+        {
+          error = "array '" + a.name + "': unexpected type " + a.type;
+          return false;
+        }
+      a.ok = true;
+      return true;
+    }
+
+    // appended data: every array is [UInt64 byte count][payload], raw or base64-encoded as one unit, at 'offset'
+    bool decode_appended(const std::string &tag, const std::string &blob, const std::string &encoding, Array &a, std::string &error)
+    {
+      a.name = attr(tag, "Name");
+      a.type = attr(tag, "type");
+      a.format = attr(tag, "format");
+      const std::string nc = attr(tag, "NumberOfComponents");
+      a.ncomp = nc.empty() ? 1 : std::atoi(nc.c_str());
+      const std::string off_s = attr(tag, "offset");
+      if (a.format != "appended" || off_s.empty())
+        {
+          error = "array '" + a.name + "': expected format=\"appended\" with an offset";
+          return false;
+        }
+      const size_t off = static_cast<size_t>(std::atoll(off_s.c_str()));
+      std::string payload;
+      if (encoding == "raw")
+        {
+          if (off + 8 > blob.size())
+            {
+              error = "array '" + a.name + "': offset beyond the appended data";
+              return false;
+            }
+          uint64_t nbytes = 0;
+          std::memcpy(&nbytes, blob.data() + off, 8);
+          if (off + 8 + nbytes > blob.size())
+            {
+              error = "array '" + a.name + "': announces " + std::to_string(nbytes) + " bytes beyond the appended data";
+              return false;
+            }
+          payload = blob.substr(off + 8, nbytes);
+        }
+      else
+        {
+          if (off + 12 > blob.size())
+            {
+              error = "array '" + a.name + "': offset beyond the appended data";
+              return false;
+            }
+          std::string head;
+          if (!b64_decode(blob.substr(off, 12), head) || head.size() < 8)
+            {
+              error = "array '" + a.name + "': appended header is not base64";
+              return false;
+            }
+          uint64_t nbytes = 0;
+          std::memcpy(&nbytes, head.data(), 8);
+          const size_t enc = 4 * ((8 + nbytes + 2) / 3);
+          std::string all;
+          if (off + enc > blob.size() || !b64_decode(blob.substr(off, enc), all) || all.size() != 8 + nbytes)
+            {
+              error = "array '" + a.name + "': appended payload does not decode to the announced " + std::to_string(nbytes) + " bytes";
+              return false;
+            }
+          payload = all.substr(8);
+        }
+      return payload_to_values(payload, a, error);
+    }
+
     bool decode_array(const std::string &tag, const std::string &body, Array &a, std::string &error)
     {
       a.name = attr(tag, "Name");
@@ -665,17 +753,34 @@ namespace sim
           v.error = "Piece lacks NumberOfPoints/NumberOfCells";
           return v;
         }
-      if (t.find("<AppendedData") != std::string::npos)
+      std::string blob, encoding;
+      bool have_blob = false;
+      const size_t ad = t.find("<AppendedData");
+      if (ad != std::string::npos)
         {
-          v.appended = true;
-          v.ok = true; // appended formats: only the skeleton is checked
-          for (const char *e : {"<PointData>", "</PointData>", "<Points>", "</Points>", "<Cells>", "</Cells>", "</Piece>", "</UnstructuredGrid>"})
-            if (t.find(e) == std::string::npos)
-              {
-                v.ok = false;
-                v.error = std::string("missing ") + e;
-              }
-          return v;
+          const size_t te = t.find('>', ad);
+          encoding = attr(t.substr(ad, te - ad), "encoding");
+          const size_t us = t.find('_', te);
+          const size_t end = t.rfind("</AppendedData>");
+          if (te == std::string::npos || us == std::string::npos || end == std::string::npos || us > end)
+            {
+              v.error = "AppendedData section without payload marker";
+              return v;
+            }
+          blob = t.substr(us + 1, end - us - 1);
+          have_blob = true;
+          if (vtag.find("compressor=") != std::string::npos || !(encoding == "raw" || encoding == "base64"))
+            {
+              v.appended = true;
+              v.ok = true; // compressed appended data: only the skeleton is checked
+              for (const char *e : {"<PointData>", "</PointData>", "<Points>", "</Points>", "<Cells>", "</Cells>", "</Piece>", "</UnstructuredGrid>"})
+                if (t.find(e) == std::string::npos)
+                  {
+                    v.ok = false;
+                    v.error = std::string("missing ") + e;
+                  }
+              return v;
+            }
         }
       // sections
       auto section = [&](const std::string &name, size_t &b, size_t &e) -> bool
@@ -699,6 +804,16 @@ namespace sim
             if (a == std::string::npos || a >= e)
               return true;
             const size_t te = t.find('>', a);
+            if (te != std::string::npos && te > 0 && t[te - 1] == '/' && have_blob)
+              {
+                // self-closing element: the data is in the appended section
+                Array arr;
+                if (!decode_appended(t.substr(a, te - 1 - a), blob, encoding, arr, v.error))
+                  return false;
+                out.push_back(arr);
+                p = te + 1;
+                continue;
+              }
             const size_t ce2 = t.find("</DataArray>", te);
             if (te == std::string::npos || ce2 == std::string::npos || ce2 > e)
               {
@@ -706,7 +821,8 @@ namespace sim
                 return false;
               }
             Array arr;
-            if (!decode_array(t.substr(a, te - a), t.substr(te + 1, ce2 - te - 1), arr, v.error))
+            if (have_blob ? !decode_appended(t.substr(a, te - a), blob, encoding, arr, v.error)
+                : !decode_array(t.substr(a, te - a), t.substr(te + 1, ce2 - te - 1), arr, v.error))
               return false;
             out.push_back(arr);
             p = ce2 + 12;
@@ -732,7 +848,7 @@ namespace sim
           v.error = "Cells lacks connectivity/offsets/types";
           return v;
         }
-      v.exact = v.points.format == "binary";
+      v.exact = v.points.format == "binary" || v.points.format == "appended";
       v.ok = true;
       return v;
     }
